@@ -286,7 +286,14 @@ def extract(tree):
 
     # ---- unwrap: accepted operand types and range checks -----------------------------------------------
     for kind, chk, scan in (("s64", "janet_checkint64range", "janet_scan_int64"), ("u64", "janet_checkuint64range", "janet_scan_uint64")):
-        b = _norm(csrc.func_body(src, "janet_unwrap_" + kind))
+        b = csrc.func_body(src, "janet_unwrap_" + kind)
+        mp = {_params(src, "janet_unwrap_" + kind, ("Janet",))[0]: "x"}          # locals by role (a renamed local is harmless)
+        for pat, canon in ((r"double\s+(\w+)\s*=\s*janet_unwrap_number\s*\(", "d"), (r"const\s+uint8_t\s*\*\s*(\w+)\s*=\s*janet_unwrap_string\s*\(", "str"),
+                           (r"void\s*\*\s*(\w+)\s*=\s*janet_unwrap_abstract\s*\(", "abst"), (r"\bu?int64_t\s+(\w+)\s*;", "value")):
+            mm_ = re.search(pat, b)
+            if mm_:
+                mp[mm_.group(1)] = canon
+        b = _norm(_rename(b, mp))
         if "if (!%s(d)) break; return (%s) d;" % (chk, {"s64": "int64_t", "u64": "uint64_t"}[kind]) not in b or \
            "if (%s(str, janet_string_length(str), &value)) return value;" % scan not in b or \
            "janet_abstract_type(abst) == &janet_s64_type || (janet_abstract_type(abst) == &janet_u64_type)" not in b:
